@@ -65,6 +65,17 @@ class ForkNext(Unit):
         st = St()
         self.n_forks = z3.Int('n_forks')
         st.assume(self.n_forks >= 2)
+        # the copy module, should the code copy what it hands out: a copy is ANOTHER object, and copying an exception re-runs its class's constructor on its args
+        # (type(exc)(*exc.args)) -- which a user's exception class may refuse
+        def do_copy(e, s, a, k, n):
+            new = fresh('copied_object')
+            boom = fresh('copy_failure')
+            s2 = s.fork().assume(V.isinst(boom, 'Exception'), *V.cls_facts(boom))
+            s1 = s.fork().assume(V.ucls(new) == V.ucls(box(e, a[0])), *V.cls_facts(new))
+            return [('ok', s1, new), ('raise', s2, boom)]
+        ex.globals['copy'] = Module('copy')
+        ex.globals['copy.copy'] = Fn(do_copy, trusted='copy.copy / deepcopy give a new object or raise what the class\'s reconstruction raises')
+        ex.globals['copy.deepcopy'] = ex.globals['copy.copy']
         TeeState.init(st, self.n_forks)
         self.lock = Lock(ex, 'instream_lock').init(st)
         self.boxlock = Lock(ex, 'box.lock').init(st)
